@@ -53,15 +53,20 @@ func vJSON(tag string) interface{} {
 // verif: unwind=8 strlen=8 also=C14,C19,C04
 func vh_C05_nonce() {
 	claims := map[string]interface{}{"sub": "someone"}
+	sessionNonce := ndBytes("session-nonce")
+	verifAssume(len(sessionNonce) == 32)
 	hasNonce := ndBool("has-nonce-claim")
 	if hasNonce {
-		claims["nonce"] = vJSON("nonce")
+		if ndBool("nonce-claim-is-the-hash-of-this-login") {
+			claims["nonce"] = encryption.HashNonce(sessionNonce) // the honest identity provider
+		} else {
+			claims["nonce"] = vJSON("nonce")
+		}
 	}
 	tok := verifIDToken(claims)
 	ver := &vVerifier{}
 	p := &OIDCProvider{ProviderData: &ProviderData{Verifier: ver}, SkipNonce: ndBool("skip-nonce")}
-	s := &sessions.SessionState{IDToken: tok, Nonce: ndBytes("session-nonce")}
-	verifAssume(len(s.Nonce) == 32)
+	s := &sessions.SessionState{IDToken: tok, Nonce: sessionNonce}
 	ok := p.ValidateSession(context.Background(), s)
 	if ok {
 		verifReach("valid")
@@ -77,6 +82,7 @@ func vh_C05_nonce() {
 	// converse: a verified token echoing the hashed nonce is accepted
 	if str, isStr := claims["nonce"].(string); ver.ok && hasNonce && isStr && str == encryption.HashNonce(s.Nonce) {
 		verifAssert("C05.nonce.converse", ok)
+		verifReach("honest-login-accepted")
 	}
 }
 
@@ -193,9 +199,15 @@ func vh_C05_entra_nonce() {
 		tenant = "tenant-b"
 	}
 	claims := map[string]interface{}{"sub": "someone", "iss": "https://login.microsoftonline.com/" + tenant + "/v2.0"}
+	sessionNonce := ndBytes("session-nonce")
+	verifAssume(len(sessionNonce) == 32)
 	hasNonce := ndBool("has-nonce-claim")
 	if hasNonce {
-		claims["nonce"] = vJSON("nonce")
+		if ndBool("nonce-claim-is-the-hash-of-this-login") {
+			claims["nonce"] = encryption.HashNonce(sessionNonce)
+		} else {
+			claims["nonce"] = vJSON("nonce")
+		}
 	}
 	tok := verifIDToken(claims)
 	ver := &vVerifier{}
@@ -203,8 +215,7 @@ func vh_C05_entra_nonce() {
 	if ndBool("allowed-tenants-configured") {
 		p.multiTenantAllowedTenants = []string{"tenant-a"}
 	}
-	s := &sessions.SessionState{IDToken: tok, Nonce: ndBytes("session-nonce")}
-	verifAssume(len(s.Nonce) == 32)
+	s := &sessions.SessionState{IDToken: tok, Nonce: sessionNonce}
 	ok := p.ValidateSession(context.Background(), s)
 	if ok {
 		verifReach("valid")
